@@ -165,6 +165,8 @@ def tok_text(t):
         return "(PPost %s \"%s\")" % (tok_text(t[1]), t[2])
     if k == "lsym":
         return "(PLocal \"?%s\")" % t[1]      # classification pass only: never emitted
+    if k == "carry":
+        return "(PCarry %d)" % t[1]
     raise Unsupported("pointer token " + str(k))
 
 def tok_key(t):
@@ -186,6 +188,8 @@ def tok_key(t):
         return (6, t[1])
     if k == "post":
         return (7, tok_key(t[1]), t[2])
+    if k == "carry":
+        return (8, t[1])
     return (9,)
 
 def wrapz(w, e):
@@ -296,7 +300,7 @@ REFCOUNT = {"cbor_incref": "Incref", "cbor_move": "Move", "cbor_intermediate_dec
 PURE_LEAF = {"_cbor_encoded_header_size": "fb_cbor_encoded_header_size",
              "_cbor_safe_to_multiply": "fb_cbor_safe_to_multiply", "_cbor_safe_to_add": "fb_cbor_safe_to_add",
              "_cbor_safe_signaling_add": "fb_cbor_safe_signaling_add", "_cbor_highest_bit": "fb_cbor_highest_bit"}
-EFF_RANK = {"Incref": 1, "Decref": 2, "Move": 3, "Store": 4, "Fill": 5, "Copy": 6, "SetPtr": 7, "SetInt": 8}
+EFF_RANK = {"Incref": 1, "Decref": 2, "Move": 3, "Store": 4, "Fill": 5, "Copy": 6, "SetPtr": 7, "SetInt": 8, "Carry": 9}
 
 # ------------------------------------------------------------------------------------------
 # expressions
@@ -641,6 +645,8 @@ def nonnull(p, st, cx):
     shape = ("slot", t[3]) if t[0] == "slot" else (("field", t[2]) if t[0] == "field" else None)
     if shape in cx.spec.get("nulltests", {}):
         return "nn_" + cx.spec["nulltests"][shape]      # is this element / child pointer non-NULL: an input
+    if any(key in ((EFF_RANK["Incref"], tok_key(t)), (EFF_RANK["Move"], tok_key(t))) for key, _, _ in st.effs):
+        return "true"       # cbor_incref / cbor_move already dereferenced it on this path
     raise Unsupported("nullness of the opaque pointer " + tok_text(t))
 
 def RV(n, st, cx):
@@ -803,6 +809,8 @@ def RV(n, st, cx):
             lv = LV(x, st, cx)
             if lv[0] == "loc":
                 return ("ptr", lv[1], lv[2])
+            if lv[0] == "slot" and lv[3] == () and cx.spec.get("precise"):
+                return ("eptr", lv[1], lv[2])        # &base[i]: a pointer to element i
             raise Unsupported("address of a local or a slot")
         if op == "*":
             return read(LV(n, st, cx), n, st, cx)
@@ -863,6 +871,8 @@ def arg_text(v):
         return "AVal \"%s\" %s" % (v[1], tok_text(v[2]))
     if v[0] == "eptr":
         raise Unsupported("element pointer as a call argument")
+    if v[0] == "init":          # a struct passed by value, written as a compound literal: its members in order
+        return "AStruct [%s]" % "; ".join(arg_text(x) for _, x in v[1])
     raise Unsupported("call argument")
 
 HELPERS = _re.compile(r"^(cbor_(byte)?string_set_handle|cbor_mark_(uint|negint)|cbor_set_(uint(8|16|32|64)|float[248]|bool|ctrl))$")
@@ -1003,7 +1013,7 @@ def call(n, st, cx):
         return ("void",)
     listed = LISTED_BY_NAME.get(name)
     rk = "void" if unconst(desugared(n)) == "void" else node_kind_of_type(n, cx)
-    if rk == "ptr" and cx.spec.get("precise") and name != cx.spec["name"] and (listed is not None or CONSTRUCTORS.match(name)):
+    if rk == "ptr" and cx.spec.get("precise") and (name != cx.spec["name"] or cx.spec.get("ret") == "ptr") and (listed is not None or CONSTRUCTORS.match(name)):
         # a library constructor / pusher: an event with a NULL-or-not oracle, like an allocator call
         vals = [RV(a, st, cx) for a in args]
         k = st.nalloc
@@ -1444,6 +1454,11 @@ def plan_text(v, st, cx):
                         raise Unsupported("loop accumulator without a value at the loop head")
                     loop_extra.append("(\"acc%d\", %s)" % (j, val[1]))
                 loop_extra.append("(\"round\", %s)" % ("(v_k + 1)" if own else "0"))
+                for j, sid in enumerate(cx.carried(info)):
+                    val = st.env.get(sid)
+                    if val is None or val[0] != "ptr" or val[2] != ():
+                        raise Unsupported("carried pointer without a value at the loop head")
+                    st.effs.append(((EFF_RANK["Carry"], j), "Carry %d %s" % (j, tok_text(val[1])), None))
     elif v[0] == "void":
         if want != "void":
             raise Unsupported("return without a value")
@@ -1641,9 +1656,16 @@ FUNCTIONS += [
     F("cbor/common.c", "cbor_decref", ["ptr"], DEC, ret="void", group="ref", loops=4, accs=0, readonly=True,
       nulltests={("slot", ""): "elem", ("slot", "value"): "value", ("field", "metadata.tagged_item"): "child"}),
 ]
+# ---- cbor_copy (group "copy"): per-type constructor, one round per loop, the cleanup on failure
+FUNCTIONS += [
+    F("cbor.c", "cbor_copy", ["ptr"],
+      item_fields("type", "width", "length", "dst", "end_ptr", "allocated", "value", "ctrl", "chunk_count"),
+      ret="ptr", group="copy", loops=4, accs=0, oracles=3, calls=1, readonly=True, writes=[], getters=GET_INT),
+]
 LISTED = {f["name"] for f in FUNCTIONS}
 LISTED_BY_NAME = {f["name"]: f for f in FUNCTIONS}
-GROUPS = {"containers": "Gen_effects.v", "load": "Gen_effects_load.v", "ser": "Gen_effects_ser.v", "ref": "Gen_effects_ref.v"}
+GROUPS = {"containers": "Gen_effects.v", "load": "Gen_effects_load.v", "ser": "Gen_effects_ser.v", "ref": "Gen_effects_ref.v",
+          "copy": "Gen_effects_copy.v"}
 
 def gname(name):
     return "G" + name
@@ -1776,9 +1798,25 @@ def translate_function(spec, cfg, sizes, alltu):
                     env[sid] = vals[0]
                 elif sid in env0 and env0[sid][0] in ("int", "ptr") and not any(assigns(body, sid) for _ in (0,)):
                     env[sid] = env0[sid]          # a parameter that is never assigned
+                elif sid in carried(info):
+                    env[sid] = ("ptr", ("carry", carried(info).index(sid)), ())
                 else:
                     env[sid] = ("stale",)
         return env
+
+    def carried(info):
+        """pointer locals that are not assigned in the loop but whose value at the loop head depends on
+           the path taken to it (an allocation result): inputs of the round, PCarry j"""
+        out = []
+        for sid, (nm, ty) in cx.scalars.items():
+            if sid in info["assigned"] or not is_ptr_type(ty):
+                continue
+            vals = [a.get(sid) for a in info["arrivals"]]
+            if vals and all(v is not None and v[0] == "ptr" and v[2] == () for v in vals) \
+               and not (all(v == vals[0] for v in vals) and closed(vals[0])):
+                out.append(sid)
+        return out
+    cx.carried = carried
 
     def run():
         cx.n = 0
@@ -1820,10 +1858,20 @@ def translate_function(spec, cfg, sizes, alltu):
     return run()
 
 def assigns(n, sid):
-    """does the subtree assign / increment the variable with declaration id sid?"""
+    """does the subtree assign / increment the variable with declaration id sid?  (`cbor_decref(&x)` is
+       the release idiom: it is not counted, x is not used after it)"""
+    released = set()
+    for x in all_nodes(n):
+        if x.get("kind") == "CallExpr":
+            f = cast.strip(x["inner"][0])
+            if f.get("kind") == "DeclRefExpr" and f.get("referencedDecl", {}).get("name") == "cbor_decref":
+                for a in x["inner"][1:]:
+                    released.add(id(cast.strip(a)))
     for x in all_nodes(n):
         k = x.get("kind")
         tgt = None
+        if id(x) in released:
+            continue
         if (k == "BinaryOperator" and x.get("opcode") == "=") or k == "CompoundAssignOperator":
             tgt = cast.strip(x["inner"][0])
         elif k == "UnaryOperator" and x.get("opcode") in ("++", "--"):
@@ -1837,7 +1885,7 @@ def assigns(n, sid):
 def closed(v):
     """a value that depends only on the function's inputs (no per-path oracle, no loop state)"""
     txt = repr(v)
-    return not _re.search(r"\b(c_\d|ok_\d|a_\d|v_k\b|L_0x|lsym)", txt)
+    return not _re.search(r"\b(c_\d|ok_\d|a_\d|v_k\b|L_0x|lsym)|'new'|'res'|'post'|'carry'", txt)
 
 def classify(idx, info, cx):
     """loop-carried scalars: a counter (+1 / -1 per round on every back edge, known start) becomes an
@@ -1934,9 +1982,9 @@ ENUMS_LOAD = ("CBOR_TYPE_BYTESTRING", "CBOR_TYPE_STRING", "CBOR_ERR_NONE", "CBOR
 def emit(fns, enums, conf=None, group="containers", alltu_enums=None):
     lines = ["(* GENERATED by translator/effects.py from the clang AST of /repo/src — do not edit *)",
              "From Coq Require Import ZArith List Bool String.", "Import ListNotations.",
-             "From CB Require Import GenLeafTypes HPlans%s." % {"load": " HPlansLoad", "ser": " HPlansSer", "ref": " HPlansRef"}.get(group, ""),
+             "From CB Require Import GenLeafTypes HPlans%s." % {"load": " HPlansLoad", "ser": " HPlansSer", "ref": " HPlansRef", "copy": " HPlansCopy"}.get(group, ""),
              "Local Open Scope string_scope.", "Local Open Scope Z_scope.", "Local Open Scope bool_scope.", ""]
-    names = {"containers": ENUMS, "load": ENUMS_LOAD, "ser": ENUMS_SER, "ref": ()}[group]
+    names = {"containers": ENUMS, "load": ENUMS_LOAD, "ser": ENUMS_SER, "ref": (), "copy": ()}[group]
     table = enums if group == "containers" else (alltu_enums or {})
     for nm in names:
         if nm in table:
